@@ -31,6 +31,15 @@ func init() {
 					js = append(js, Job{Dir: "datacoding/gsm7encoding", Harness: "VH_C08_transformers", Params: map[string]int{"n": n, "packed": packed}, Weight: 30 + n})
 				}
 			}
+			dn := []int{1, 7, 8, 9}
+			if tier == "thorough" {
+				dn = []int{1, 2, 7, 8, 9, 10, 15, 16, 17}
+			}
+			for _, n := range dn {
+				for packed := 0; packed <= 1; packed++ {
+					js = append(js, Job{Dir: "datacoding/gsm7encoding", Harness: "VH_C08_decoder_septets", Params: map[string]int{"n": n, "packed": packed}, Weight: 20 + n})
+				}
+			}
 			return js
 		},
 		Functions: []string{"gsm7encoding.Encode", "gsm7encoding.Decode", "gsm7encoding.Pack", "gsm7encoding.Unpack", "gsm7encoding.ValidateGSM7String", "gsm7encoding.ValidateGSM7Buffer", "gsm7encoding.IsValidGSM7String", "forwardLookup/forwardEscape/reverseLookup/reverseEscape as built by the package's own init"},
